@@ -21,7 +21,7 @@ if binp is None:
     sys.exit(2)
 bad = 0
 rng = Rng(seed)
-for b in list(prop.systematic_batches(rng, tier == "thorough")) + list(prop.member_batches(rng, tier == "thorough")):
+for b in list(prop.systematic_batches(rng, tier == "thorough")) + list(prop.neighbour_batches(rng, tier == "thorough")) + list(prop.member_batches(rng, tier == "thorough")):
     t1 = time.time()
     impl, deaths = runner.run_harness(binp, b.ops)
     t2 = time.time()
